@@ -12,7 +12,12 @@ C05 — the property as an executable predicate over what was OBSERVED of one ru
                     (`engc=1`) it returns the cancellation error, and a cancelled run reports success only if every
                     pool had finished successfully on its own (`pK.main` contains `ok`)
   no invented fail  a failure that carries no component error of this run (`res=other:…`) is a spurious failure
-  guns closed       every created gun that is an `io.Closer` was closed exactly once
+  guns closed       every created gun that is an `io.Closer` was closed exactly once; for the guns of the repo's own
+                    registered factories (`rg:` pools, shooting at an in-process server): no connection of the run
+                    is open after `Engine.Wait` returned, and a gun that wraps an `io.Closer` is one itself
+  cli               (`cli=` cases: the run goes through `cli.runEngine` / `cli.awaitPandoraTermination`) the process
+                    ends with status 0 exactly when the run succeeded and no signal was acted on; before any other
+                    exit the run context was cancelled (`gs`) and `Engine.Wait` had returned (`fatal.w1`)
 -/
 import Pandora.Drv.Util
 
@@ -25,11 +30,13 @@ structure PoolIn where
   closable : Bool := false
   warm : Bool := false
   fails : List (String × Nat) := []     -- newgun@k bind@k warmup sched@k panic@k
+  real : Bool := false                  -- `rg:` the guns are made by a factory the repo registers
   deriving Repr
 
 structure Plan where
   pools : List PoolIn
   cancel : String
+  cli : String := ""       -- "" | run | int | term
   deriving Repr
 
 structure PoolObs where
@@ -38,6 +45,9 @@ structure PoolObs where
   guns : Nat
   closes : List Nat
   errs : List String      -- component errors the mock components of this pool actually returned
+  gcl : Option Bool := none      -- `rg:` pools: the factory's guns are `io.Closer`
+  icl : Option Bool := none      -- … the gun, or the gun it wraps, is an `io.Closer`
+  srvopen : Option Nat := none   -- … connections of the run the server still holds open after `Engine.Wait`
   deriving Repr
 
 structure Obs where
@@ -50,6 +60,8 @@ structure Obs where
   engc : String
   sup : String
   pools : List PoolObs
+  cli : Option (List String) := none   -- rcv | gs | fatal.w1 | fatal.w0 | ok | hang, in order
+  csig : Bool := false                 -- the process sent itself the signal before `awaitPandoraTermination` ended
   deriving Repr
 
 def dashList (s : String) : List String := if s == "-" then [] else splitList s
@@ -65,13 +77,14 @@ def parsePool (spec : String) : PoolIn :=
     | ["per", v] => { p with per := v == "1" }
     | ["gun", v] => { p with closable := v.contains 'c', warm := v.contains 'w' }
     | ["fail", v] => if v == "-" then p else { p with fails := (v.splitOn "+").map parseFail }
+    | ["rg", v] => { p with real := v != "-" }
     | _ => p) {}
 
 def parsePlan (input : String) : Option Plan := do
   let kv := parseKV input
   let n ← getN? kv "pools"
   let pools ← (List.range n).mapM fun i => (lookup kv s!"p{i}").map parsePool
-  pure { pools := pools, cancel := getS kv "cancel" "none" }
+  pure { pools := pools, cancel := getS kv "cancel" "none", cli := getS kv "cli" "" }
 
 def parseObs (n : Nat) (impl : String) : Option Obs := do
   let kv := parseKV impl
@@ -79,10 +92,13 @@ def parseObs (n : Nat) (impl : String) : Option Obs := do
   let pools ← (List.range n).mapM fun i => do
     let closes ← (dashList (← lookup kv s!"p{i}.closes")).mapM String.toNat?
     pure { main := dashList (← lookup kv s!"p{i}.main"), aw := dashList (← lookup kv s!"p{i}.aw"),
-           guns := ← getN? kv s!"p{i}.guns", closes := closes, errs := dashList (← lookup kv s!"p{i}.errs") : PoolObs }
+           guns := ← getN? kv s!"p{i}.guns", closes := closes, errs := dashList (← lookup kv s!"p{i}.errs"),
+           gcl := (lookup kv s!"p{i}.gcl").map (· == "1"), icl := (lookup kv s!"p{i}.icl").map (· == "1"),
+           srvopen := getN? kv s!"p{i}.srvopen" : PoolObs }
   pure { res := res, canc := getS kv "canc" == "1", lat := getS kv "lat" "-", wait := getS kv "wait",
          leak := (getN? kv "leak").getD 0, eng := dashList (getS kv "eng" "-"), engc := getS kv "engc",
-         sup := getS kv "sup" "-", pools := pools }
+         sup := getS kv "sup" "-", pools := pools, cli := (lookup kv "cli").map dashList,
+         csig := getS kv "csig" == "1" }
 
 def PoolIn.has (p : PoolIn) (name : String) (k : Nat) : Bool := p.fails.contains (name, k)
 
@@ -101,14 +117,46 @@ def occurred (_pl : Plan) (o : Obs) (i : Nat) : List String :=
 def anyError (pl : Plan) (o : Obs) : Option String :=
   ((List.range pl.pools.length).flatMap fun i => (occurred pl o i).map fun c => s!"p{i}.{c}").head?
 
+/-- is the gun of this pool an `io.Closer`: the plan says so for mock guns, the observation for real ones -/
+def closableOf (p : PoolIn) (po : PoolObs) : Bool := if p.real then po.gcl.getD false else p.closable
+
 def gunCloseBad (pl : Plan) (o : Obs) : Option String :=
   ((List.range pl.pools.length).filterMap fun i =>
     match pl.pools[i]?, o.pools[i]? with
     | some p, some po =>
       if po.closes.length != po.guns then some s!"p{i}:close-counts-{po.closes.length}-for-{po.guns}-guns"
-      else if po.closes.all (· == (if p.closable then 1 else 0)) then none
+      else if po.closes.all (· == (if closableOf p po then 1 else 0)) then none
       else some s!"p{i}:guns-{po.guns}-close-counts-{",".intercalate (po.closes.map toString)}"
     | _, _ => some s!"p{i}:missing").head?
+
+/-- guns of the repo's registered factories: what they hold must be released when the run is over -/
+def gunLeakBad (pl : Plan) (o : Obs) : Option String :=
+  ((List.range pl.pools.length).filterMap fun i =>
+    match pl.pools[i]?, o.pools[i]? with
+    | some p, some po =>
+      if !p.real then none
+      else if po.srvopen.getD 0 != 0 then
+        some s!"p{i}:{po.srvopen.getD 0} connections of the run are still open after Engine.Wait returned"
+      else if po.gcl == some false && po.icl == some true then
+        some s!"p{i}:the registered gun wraps an io.Closer but is none itself, the engine cannot close it"
+      else none
+    | _, _ => none).head?
+
+/-- the process-level outcome of a run that went through `cli.awaitPandoraTermination` -/
+def cliBad (o : Obs) : Option String :=
+  match o.cli with
+  | none => none
+  | some evs =>
+    let fatal := evs.any (·.startsWith "fatal")
+    if evs.contains "hang" then some "hang:awaitPandoraTermination did not end"
+    else if evs.contains "ok" && o.res != "ok" then some s!"outcome:exit status 0 although Engine.Run returned {o.res.take 40}"
+    else if fatal && o.res == "ok" && !evs.contains "rcv" then
+      some "outcome:fatal exit although the run succeeded and no signal was acted on"
+    else if !fatal && !evs.contains "ok" then some "outcome:neither a normal return nor an exit"
+    else if fatal && !(evs.takeWhile (fun e => !e.startsWith "fatal")).contains "gs" then
+      some "no-shutdown:exit without cancelling the run context first"
+    else if evs.contains "fatal.w0" then some "exit-before-wait:the process exits while Engine.Wait has not returned"
+    else none
 
 def verdict (pl : Plan) (o : Obs) : String :=
   if o.res.startsWith "PANIC" then s!"fail:crash:{o.res.take 60}"
@@ -143,6 +191,12 @@ def verdict (pl : Plan) (o : Obs) : String :=
     else if o.canc && o.lat == "slow" then "fail:cancel-slow:Engine.Run returned more than 1.5 s after the cancel"
     else match gunCloseBad pl o with
     | some e => s!"fail:gun-close:{e}"
+    | none =>
+    match gunLeakBad pl o with
+    | some e => s!"fail:gun-leak:{e}"
+    | none =>
+    match cliBad o with
+    | some e => s!"fail:cli-{e}"
     | none =>
     if o.canc && o.lat == "mid" then "skip:inconclusive-latency" else "ok"
 
